@@ -13,6 +13,14 @@ the handshake verifies; issuer == CA subject; EKU permits serverAuth; valid now;
 agree; every SAN entry and the CN are taken from {SNI or local address, server address, upstream
 certificate CN/SANs}.  For SNI values that are not DNS names nothing but the SAN-subset rule is
 demanded.
+
+QUIC clients (sc["quic"]): over QUIC mitmproxy hands the leaf AND the chain to the QUIC stack explicitly
+(TlsConfig.quic_start_client -> QuicTlsSettings -> tls_settings_to_configuration); nothing completes the
+chain from a file as an OpenSSL context does.  For each QUIC client the real hook is run inside the running
+proxy for a connection context as ClientQuicLayer.start_tls has it, and exactly the certificates configured
+for the handshake are verified for the asked identity against the client's trust store (only the root of
+the CA chain) by OpenSSL (X509_STRICT path validation) and cryptography.x509.verification (server policy);
+the same issuer / EKU / validity / name-origin rules apply to the leaf.  No QUIC packets are exchanged.
 """
 from __future__ import annotations
 
@@ -46,9 +54,14 @@ RULE = ("70 % own family: one proxy instance (regular / transparent / reverse ht
         "certificate draws CN from 15 forms (none, host, text with spaces, 64 chars, 63/64-char single label, non-ASCII, "
         "IP literal, wildcard, leading/double dot, trailing space, URL-like, e-mail-like) x SAN sets (none, host, many incl. "
         "wildcard and IPs, mixed general-name types, e-mail only, upper case, duplicates) x organisation x CRL "
-        "distribution point (none, http, malformed URL, ldap, no scheme, with port/query); 30 % riders: the C15 and C18 "
+        "distribution point (none, http, malformed URL, ldap, no scheme, with port/query); in half of the own-family runs "
+        "the same proxy instance (same default / custom CA chain) additionally serves 1-3 QUIC clients (SNI from the same "
+        "23 forms; server address known or not; upstream certificate at hand or not; h3 offers): the real "
+        "quic_start_client hook runs through the addon manager and leaf + the chain handed to the QUIC stack are "
+        "verified against the client's trust store (root of the CA chain only); 30 % riders: the C15 and C18 "
         "families.  non-trivial = at least one client handshake was judged; distinct = abstract event-log digests")
-COMPONENTS_REAL = ["mitmproxy.addons.tlsconfig.TlsConfig.get_cert / tls_start_client", "mitmproxy.certs.CertStore.get_cert, "
+COMPONENTS_REAL = ["mitmproxy.addons.tlsconfig.TlsConfig.get_cert / tls_start_client / quic_start_client (via "
+                   "AddonManager.handle_lifecycle(QuicStartClientHook)), quic tls_settings_to_configuration","mitmproxy.certs.CertStore.get_cert, "
                    "dummy_cert, Cert", "mitmproxy.net.tls.create_client_proxy_context",
                    "mitmproxy.proxy.layers.tls ClientTLSLayer/ServerTLSLayer, http CONNECT handling, modes, next_layer",
                    "Master + default addon set, Proxyserver, ConnectionHandler"]
@@ -70,14 +83,39 @@ EXPECTED_PROBES = ["judged", "verified_ok", "form_simple", "form_no_sni", "form_
                    "form_idn_alabel", "form_label63", "form_name253", "form_label64", "form_trailing_dot",
                    "form_wildcard_literal", "outer_judged", "custom_ca", "upstream_names_copied", "upstream_org_copied",
                    "upstream_crl_rewritten", "second_verdict_ok", "second_verdict_skipped", "no_cn_san_critical",
-                   "multi_flow_small_store", "not_a_name_skipped", "mode_transparent", "mode_swp", "mode_reverse_https"]
+                   "multi_flow_small_store", "not_a_name_skipped", "mode_transparent", "mode_swp", "mode_reverse_https",
+                   "quic_clients", "quic_judged", "quic_verified_ok", "quic_custom_ca_judged",
+                   "quic_custom_ca_verified_ok", "quic_no_sni", "quic_ip_sni", "quic_with_upstream_cert",
+                   "quic_not_a_name_skipped"]
 
 _LABEL = re.compile(r"^[A-Za-z0-9_-]{1,63}$")
 _store_cache: dict = {}
 
 
 def generate(rng, tier):
-    return G.gen_mix(rng, tier, "c16", 0.7)
+    sc = G.gen_mix(rng, tier, "c16", 0.7)
+    if sc.get("family") == "c16":
+        # QUIC clients of the same proxy instance (same CA configuration, same certificate store): 1-3 client
+        # connections whose certificate mitmproxy configures through the quic_start_client hook
+        q = rng.at("c16-quic")
+        if q.random() < 0.5:
+            sc["quic"] = gen_quic(q, sc)
+    return sc
+
+
+def gen_quic(q, sc):
+    forms = list(G.SNI_FORMS)
+    weights = [G.SNI_WEIGHTS.get(f, 2) for f in forms]
+    out = []
+    for _ in range(q.choice([1, 1, 2, 3])):
+        form = q.choices(forms, weights)[0]
+        k = q.randrange(len(sc["origins"]))
+        known_server = q.random() < 0.7          # the server address is already known (reverse / transparent)
+        out.append({"form": form, "sni": G.SNI_FORMS[form], "origin": k if known_server else None,
+                    # the upstream QUIC handshake has completed first: its certificate is at hand
+                    "upstream": bool(known_server and q.random() < 0.7),
+                    "offers": q.choice([["h3"], ["h3", "h3-29"], []])})
+    return out
 
 
 def to_alabel(name: str):
@@ -193,6 +231,33 @@ def _why_class(why):
     return why[:60]
 
 
+def cert_checks(cert, obs, allowed, *, where, form, label, viol, probes):
+    """Properties of one presented certificate (issuer, EKU, validity, names).  -> normalised SAN list"""
+    now = REAL_TIME()
+    base = {"where": where, "form": form or "?"}
+    if cert["issuer"] != obs.ca_subject:
+        viol.append({"class": "wrong_issuer", "key": base,
+                     "msg": f"{label}: issuer {cert['issuer']!r} != CA subject {obs.ca_subject!r}"})
+    if not cert["serverauth"]:
+        viol.append({"class": "eku_not_serverauth", "key": base, "msg": f"{label}: EKU {cert['eku']}"})
+    if not (cert["not_before"] <= now <= cert["not_after"]):
+        viol.append({"class": "not_valid_now", "key": dict(base, side="early" if now < cert["not_before"] else "late"),
+                     "msg": f"{label}: validity [{cert['not_before']}, {cert['not_after']}] does not contain now={now}"})
+    if cert["cn"] is None:
+        probes["no_cn_san_critical" if cert["san_critical"] else "no_cn_san_not_critical"] += 1
+    got = [norm_name(k, v) for k, v in cert["sans"]]
+    extra = [g for g in got if g not in allowed]
+    if cert["cn"] is not None and not (name_to_general(cert["cn"]) & allowed) \
+            and cert["cn"].lower() not in {str(v).lower() for _, v in allowed}:
+        extra.append(("cn", cert["cn"]))
+    if extra:
+        key = {"where": where, "kind": extra[0][0]}
+        viol.append({"class": "foreign_name_in_certificate", "key": key,
+                     "msg": f"{label} ({where}): certificate names {extra} which come neither from the SNI/local address, "
+                            f"the server address nor the upstream certificate (allowed: {sorted(allowed)})"})
+    return got
+
+
 def judge(sc, obs, i, fl, rec_hs, *, outer, sni, verify, backend, form, org, viol, probes, tag):
     ident = asked_identity(sni, verify)
     probes["form_" + (form or ("no_sni" if sni is None else "plain"))] += 1
@@ -225,29 +290,7 @@ def judge(sc, obs, i, fl, rec_hs, *, outer, sni, verify, backend, form, org, vio
         probes["verified_ok"] += 1
     if not cert:
         return
-    # ---- properties of the presented certificate -------------------------------------------------
-    now = REAL_TIME()
-    base = {"where": where, "form": form or "?"}
-    if cert["issuer"] != obs.ca_subject:
-        viol.append({"class": "wrong_issuer", "key": base,
-                     "msg": f"flow {i}: issuer {cert['issuer']!r} != CA subject {obs.ca_subject!r}"})
-    if not cert["serverauth"]:
-        viol.append({"class": "eku_not_serverauth", "key": base, "msg": f"flow {i}: EKU {cert['eku']}"})
-    if not (cert["not_before"] <= now <= cert["not_after"]):
-        viol.append({"class": "not_valid_now", "key": dict(base, side="early" if now < cert["not_before"] else "late"),
-                     "msg": f"flow {i}: validity [{cert['not_before']}, {cert['not_after']}] does not contain now={now}"})
-    if cert["cn"] is None:
-        probes["no_cn_san_critical" if cert["san_critical"] else "no_cn_san_not_critical"] += 1
-    got = [norm_name(k, v) for k, v in cert["sans"]]
-    extra = [g for g in got if g not in allowed]
-    if cert["cn"] is not None and not (name_to_general(cert["cn"]) & allowed) \
-            and cert["cn"].lower() not in {str(v).lower() for _, v in allowed}:
-        extra.append(("cn", cert["cn"]))
-    if extra:
-        key = {"where": where, "kind": extra[0][0]}
-        viol.append({"class": "foreign_name_in_certificate", "key": key,
-                     "msg": f"flow {i} ({where}): certificate names {extra} which come neither from the SNI/local address, "
-                            f"the server address nor the upstream certificate (allowed: {sorted(allowed)})"})
+    got = cert_checks(cert, obs, allowed, where=where, form=form, label=f"flow {i}", viol=viol, probes=probes)
     if org is not None and not outer:
         c = org["cert"]
         up = {norm_name(k, v) for k, v in c.get("sans", [])}
@@ -296,9 +339,190 @@ def check(sc, obs):
     return viol, probes, probes["judged"] > 0
 
 
+# ---------------------------------------------------------------------------------------------------
+# QUIC clients: the certificate and the chain are handed to the QUIC stack explicitly (no OpenSSL context
+# that would complete the chain from a file), so exactly these certificates are what a QUIC client gets.
+# ---------------------------------------------------------------------------------------------------
+def make_quic_driver(sc, results: list):
+    """-> ``in_world(w, obs)``: for every sc["quic"] entry build the connection context a QUIC client
+    connection has at start_tls time, run the REAL quic_start_client hook through the addon manager of the
+    running proxy and convert the settings with the real tls_settings_to_configuration."""
+    async def in_world(w, obs):
+        from mitmproxy import certs as mcerts
+        from mitmproxy import connection
+        from mitmproxy.proxy import context
+        from mitmproxy.proxy.layers import quic
+        from mitmproxy.proxy.layers.quic._stream_layers import tls_settings_to_configuration
+        from peers import pki_a
+        from cryptography.hazmat.primitives import serialization
+
+        der = lambda c: c.public_bytes(serialization.Encoding.DER)  # noqa: E731
+        for j, q in enumerate(sc["quic"]):
+            res = {"settings": False, "der": None, "chain_der": [], "crash": None, "alpn": None}
+            results.append(res)
+            n_unattributed = len(obs.flow_crashes.get(None, []))
+            n_crashes = len(w.crashes)
+            client = connection.Client(peername=("192.168.1.9", 51000 + j), sockname=(tls_a.PROXY_IP, 8080),
+                                       timestamp_start=w.loop.time(), transport_protocol="udp")
+            cx = context.Context(client, w.master.options)
+            client.sni = q["sni"]
+            client.alpn_offers = [a.encode() for a in q.get("offers", [])]
+            if q.get("origin") is not None:
+                o = sc["origins"][q["origin"]]
+                cx.server.address = (o["host"], int(o["port"]))
+                if q.get("upstream"):
+                    try:
+                        up = pki_a.chain(o["cert"]).leaf_der
+                    except ValueError:
+                        up = None   # a certificate no origin can have (e.g. CN longer than 64 characters)
+                    if up is not None:
+                        cx.server.certificate_list = [mcerts.Cert(x509.load_der_x509_certificate(up))]
+                        res["upstream"] = True
+            data = quic.QuicTlsData(client, cx)
+            try:
+                await w.master.addons.handle_lifecycle(quic.QuicStartClientHook(data))
+                st = data.settings
+                if st is not None and st.certificate is not None:
+                    cfg = tls_settings_to_configuration(st, is_client=False)
+                    res["settings"] = True
+                    res["der"] = der(cfg.certificate)
+                    res["chain_der"] = [der(c) for c in (cfg.certificate_chain or [])]
+                    res["alpn"] = list(cfg.alpn_protocols or [])
+            except Exception as e:  # noqa: BLE001 — a crash of the real code is an observation
+                res["crash"] = {"exc": type(e).__name__, "where": "quic_start_client", "msg": str(e)[:200]}
+            # exceptions the addon manager logged while working for THIS connection belong to it, not to the
+            # TCP flows of the run
+            mine = obs.flow_crashes.get(None, [])[n_unattributed:]
+            if mine:
+                del obs.flow_crashes[None][n_unattributed:]
+                if not obs.flow_crashes[None]:
+                    del obs.flow_crashes[None]
+                res["crash"] = res["crash"] or mine[0]
+            del w.crashes[n_crashes:]
+            obs.events.append(("quic", j, res["settings"], len(res["chain_der"]), res["alpn"],
+                               (res["crash"] or {}).get("exc")))
+    return in_world
+
+
+_quic_trust_cache: dict = {}
+
+
+def _san_matches(cert, ident) -> bool:
+    """RFC 6125 style match of the asked identity against the SAN entries (used when the second
+    verifier does not accept the identity as a subject)."""
+    kind, value = ident
+    for k, v in cert["sans"]:
+        if kind == "ip" and k == "ip" and norm_name(k, v) == ("ip", value):
+            return True
+        if kind == "dns" and k == "dns":
+            p, n = str(v).lower().split("."), value.lower().split(".")
+            if p == n or (p[0] == "*" and len(p) == len(n) and len(n) > 2 and p[1:] == n[1:]):
+                return True
+    return False
+
+
+def quic_verdict(cafile, der, chain_der, ident, cert):
+    """Independent verification of leaf + the chain handed to the QUIC stack against the client's trust store
+    (``cafile``: only the root of the configured CA chain).  -> (ok, verifier, why)"""
+    from OpenSSL import crypto
+    from cryptography.x509.verification import PolicyBuilder, Store, VerificationError
+    tr = _quic_trust_cache.get(cafile)
+    if tr is None:
+        with open(cafile, "rb") as f:
+            roots = x509.load_pem_x509_certificates(f.read())
+        tr = _quic_trust_cache[cafile] = roots
+    leaf = x509.load_der_x509_certificate(der)
+    chain = [x509.load_der_x509_certificate(d) for d in chain_der]
+    # 1. path building and validation: OpenSSL, strict
+    store = crypto.X509Store()
+    for r in tr:
+        store.add_cert(crypto.X509.from_cryptography(r))
+    store.set_flags(crypto.X509StoreFlags.X509_STRICT)
+    try:
+        crypto.X509StoreContext(store, crypto.X509.from_cryptography(leaf),
+                                chain=[crypto.X509.from_cryptography(c) for c in chain] or None).verify_certificate()
+    except crypto.X509StoreContextError as e:
+        return False, "openssl", str(e.args[0] if e.args else e)[:120]
+    # 2. path + identity: cryptography.x509.verification (server policy); for identities it does not take
+    #    as a subject, the SAN match is done here
+    try:
+        subject = x509.IPAddress(ipaddress.ip_address(ident[1])) if ident[0] == "ip" else x509.DNSName(ident[1])
+        now = datetime.datetime.fromtimestamp(REAL_TIME(), datetime.timezone.utc)
+        verifier = PolicyBuilder().store(Store(tr)).time(now).build_server_verifier(subject)
+    except Exception:  # noqa: BLE001
+        verifier = None
+    if verifier is None:
+        if not _san_matches(cert, ident):
+            return False, "san-match", "no subjectAltName entry matches"
+        return True, "openssl+san-match", "ok"
+    try:
+        verifier.verify(leaf, chain)
+    except VerificationError as e:
+        return False, "cryptography", str(e)[:200]
+    return True, "openssl+cryptography", "ok"
+
+
+def check_quic(sc, obs, results, viol, probes):
+    judged = 0
+    custom = sc.get("confdir") == "custom"
+    for j, (q, res) in enumerate(zip(sc.get("quic", []), results)):
+        sni, form = q["sni"], q["form"]
+        ident = asked_identity(sni, tls_a.PROXY_IP)
+        o = sc["origins"][q["origin"]] if q.get("origin") is not None else None
+        org = o if (o is not None and res.get("upstream")) else None
+        allowed = allowed_names(sc, {"host": o["host"]} if o else None, org, outer=o is None, sni=sni,
+                                verify=tls_a.PROXY_IP)
+        probes["quic_clients"] += 1
+        label = f"quic client {j}"
+        cert = tls_a.cert_summary(res["der"])
+        if ident is None:
+            probes["quic_not_a_name_skipped"] += 1
+        else:
+            judged += 1
+            probes["quic_judged"] += 1
+            if custom:
+                probes["quic_custom_ca_judged"] += 1
+            if sni is None:
+                probes["quic_no_sni"] += 1
+            elif ident[0] == "ip":
+                probes["quic_ip_sni"] += 1
+            if org is not None:
+                probes["quic_with_upstream_cert"] += 1
+            if not res["settings"]:
+                cr = res["crash"]
+                key = {"where": "quic", "crash": f"{cr['exc']}@{cr['where']}" if cr else "no certificate configured"}
+                viol.append({"class": "client_handshake_failed", "key": key,
+                             "msg": f"{label}: asking for {sni!r}: quic_start_client configured no certificate "
+                                    f"(QUIC connection is failed); first crash: {cr['msg'] if cr else None}"})
+                continue
+            ok, verifier, why = quic_verdict(obs.cafile, res["der"], res["chain_der"], ident, cert)
+            if ok:
+                probes["quic_verified_ok"] += 1
+                if custom:
+                    probes["quic_custom_ca_verified_ok"] += 1
+            else:
+                key = {"where": "quic", "verifier": verifier, "why": re.sub(r"\d+", "N", why.split(" (encountered")[0])[:90],
+                       "confdir": sc.get("confdir", "default")}
+                viol.append({"class": "quic_certificates_do_not_verify", "key": key,
+                             "msg": f"{label}: asking for {sni!r} (identity {ident}): the certificate and the chain of "
+                                    f"{len(res['chain_der'])} certificate(s) that mitmproxy configured for the QUIC "
+                                    f"handshake do not verify for it against the client's trust store "
+                                    f"({'root of the custom CA chain only' if custom else 'the mitmproxy CA'}): "
+                                    f"{verifier}: {why}"})
+        if cert:
+            cert_checks(cert, obs, allowed, where="quic", form=form, label=label, viol=viol, probes=probes)
+    return judged
+
+
 def execute(sc):
-    obs = tls_a.run(sc)
+    quic_results: list = []
+    if sc.get("quic"):
+        obs = tls_a.run(sc, in_world=make_quic_driver(sc, quic_results))
+    else:
+        obs = tls_a.run(sc)
     viol, probes, nontrivial = check(sc, obs)
+    if sc.get("quic"):
+        nontrivial = bool(check_quic(sc, obs, quic_results, viol, probes)) or nontrivial
     states = set()
     if sc.get("family") == "c16":
         for fl, t in zip(sc.get("flows", []), sc.get("tags", [])):
